@@ -454,7 +454,10 @@ class ConcreteCollector:
         self.passed = []
         self.covers = set()
 
-    def prove(self, clause, goal, props=None, note=None):
+    def prove(self, clause, goal, props=None, note=None, outputs=()):
+        (self.passed if bool(goal) else self.failed).append((clause, note))
+
+    def prove_via(self, clause, facts, goal, props=None, note=None):
         (self.passed if bool(goal) else self.failed).append((clause, note))
 
     def fail(self, clause, props=None, note=None):
